@@ -1677,3 +1677,48 @@ func c20r17(rc *core.RC) {
 		rc.Unknown("decoder.castArray/length-agrees", fd.Pos(), "found %d returns of a value and the length exit=%v (2 returns and the exit confirmed by hand)", n, lenExit != nil)
 	}
 }
+
+// ---- C20.R18 the path that selects the whole document is answered where every caller passes ----
+
+// For the path `$` there is no node to evaluate: Path.node is nil, and the path decoders call methods of the node
+// they are handed. extractFromPath, which Path.Extract and Path.Unmarshal both go through, answers that path with the
+// document itself before it runs a decoder. Answered in one of the callers only, the other one runs the decoders
+// with a nil node (Path.Unmarshal of `$` over an array dereferences it, over an object selects nothing). Obligation:
+// extractFromPath tests RootSelectorOnly and returns in front of its DecodePath call.
+func c20r18(rc *core.RC) {
+	p := rc.P
+	fd := p.Func("json", "extractFromPath")
+	key := "json.extractFromPath/root-path-answered-before-the-decoders-run"
+	if fd == nil || fd.Body == nil {
+		rc.Unknown(key, token.NoPos, "extractFromPath not found")
+		return
+	}
+	rc.Touch(p.FuncName(fd))
+	info := p.Info(fd)
+	var guard *ast.IfStmt
+	var run *ast.CallExpr
+	ast.Inspect(fd.Body, func(m ast.Node) bool {
+		switch x := m.(type) {
+		case *ast.IfStmt:
+			if guard == nil && strings.Contains(core.Src(p.Fset, x.Cond), "RootSelectorOnly") && len(x.Body.List) > 0 {
+				if _, isRet := x.Body.List[len(x.Body.List)-1].(*ast.ReturnStmt); isRet {
+					guard = x
+				}
+			}
+		case *ast.CallExpr:
+			if sel, ok := core.Unparen(x.Fun).(*ast.SelectorExpr); ok && sel.Sel.Name == "DecodePath" && run == nil {
+				run = x
+			}
+		}
+		return true
+	})
+	_ = info
+	switch {
+	case run == nil:
+		rc.Unknown(key, fd.Pos(), "no DecodePath call found in extractFromPath")
+	case guard != nil && guard.End() <= run.Pos():
+		rc.OK(key, guard.Pos(), "a path that is `$` alone is answered with the document before a decoder runs")
+	default:
+		rc.Bad(key, run.Pos(), "extractFromPath runs the path decoders also for the path `$`, whose node is nil: Path.Unmarshal (which does not pass through Path.Extract) dereferences the nil node for a root array and selects nothing for a root object")
+	}
+}
